@@ -324,7 +324,11 @@ class Engine:
 
     def x_Raise(self, s, env):
         if s.exc is None:
-            raise OutOfSubset("bare raise at line %s" % s.lineno)
+            # bare `raise` inside an except handler: the exception being handled propagates again
+            handling = getattr(self, "_handling", None)
+            if not handling:
+                raise OutOfSubset("bare raise outside an except handler at line %s" % s.lineno)
+            raise _Raise(handling[-1])
         v = self.eval(s.exc, env)
         if isinstance(v, type) and issubclass(v, BaseException):
             v = ExcVal(v, origin=s.lineno)
@@ -438,7 +442,13 @@ class Engine:
                         handled = True
                         if h.name:
                             env[h.name] = r.exc
-                        self.exec_block(h.body, env)
+                        if not hasattr(self, "_handling"):
+                            self._handling = []
+                        self._handling.append(r.exc)
+                        try:
+                            self.exec_block(h.body, env)
+                        finally:
+                            self._handling.pop()
                         break
                 if not handled:
                     raise
